@@ -105,7 +105,7 @@ def wl_history(ctx, rng, case):
                     p2 = sc.path("load")
                     with open(p2, "wb") as fh:
                         fh.write(data)
-                    f = P.ExpandingBloomFilter(filepath=p2, **bl.kw_hash(hf))
+                    f = P.ExpandingBloomFilter(filepath=p2, **bl.kw_hash(hf), **({"est_elements": rng.randint(1, 500), "false_positive_rate": rng.choice([0.3, 0.05, 0.011, 0.001])} if rng.random() < 0.3 else {}))
                 else:
                     f = P.ExpandingBloomFilter.frombytes(data, **bl.kw_hash(hf))
                 reloads += 1
